@@ -40,6 +40,7 @@ namespace
 enum class ft
 {
     scalar,  // {0, 1, 2, missing}
+    scalar4, // {0, 1, 2, 3, missing}: four levels, so that both children of a tree root can be split again
     sclass2, // {0, 1, missing}
     sclass3, // {0, 1, 2, missing}
     mclass2, // {00, 10, 01, 11, missing}
@@ -50,6 +51,7 @@ int alphabet(const ft t)
     switch (t)
     {
     case ft::scalar: return 4;
+    case ft::scalar4: return 5;
     case ft::sclass2: return 3;
     case ft::sclass3: return 4;
     default: return 5;
@@ -58,13 +60,14 @@ int alphabet(const ft t)
 
 bool is_scalar(const ft t)
 {
-    return t == ft::scalar;
+    return t == ft::scalar || t == ft::scalar4;
 }
 
 struct schema_t
 {
     std::string     name;
     std::vector<ft> feats;
+    int             ncap = 99; // never more samples than this
 };
 
 const std::vector<schema_t>& schemas()
@@ -78,6 +81,7 @@ const std::vector<schema_t>& schemas()
         {"x+x", {ft::scalar, ft::scalar}},
         {"c2+m2", {ft::sclass2, ft::mclass2}},
         {"c2+c2", {ft::sclass2, ft::sclass2}},
+        {"x4", {ft::scalar4}, 5},
     };
     return all;
 }
@@ -109,7 +113,7 @@ cell_t make_cell(const ft t, const int digit)
         return c; // missing
     }
     c.given = true;
-    if (t == ft::scalar)
+    if (is_scalar(t))
     {
         c.x = static_cast<double>(digit);
     }
@@ -208,7 +212,7 @@ built_t build(const problem_t& p, const size_t threads)
     {
         const auto t    = p.schema->feats[static_cast<size_t>(f)];
         const auto name = "f" + std::to_string(f);
-        auto col = t == ft::scalar    ? vt::make_scalar(name)
+        auto col = is_scalar(t)       ? vt::make_scalar(name)
                    : t == ft::sclass2 ? vt::make_sclass(name, 2)
                    : t == ft::sclass3 ? vt::make_sclass(name, 3)
                                       : vt::make_mclass(name, 2);
@@ -219,7 +223,7 @@ built_t build(const problem_t& p, const size_t threads)
             {
                 col.values.emplace_back(std::nullopt);
             }
-            else if (t == ft::scalar)
+            else if (is_scalar(t))
             {
                 col.values.emplace_back(std::vector<double>{c.x});
             }
@@ -272,7 +276,7 @@ bool dataset_as_expected(const problem_t& p, const built_t& b)
         }
         const auto t    = p.schema->feats[static_cast<size_t>(f)];
         const auto type = ds.feature(j).type();
-        const auto ok   = t == ft::scalar    ? (type != feature_type::sclass && type != feature_type::mclass)
+        const auto ok   = is_scalar(t)       ? (type != feature_type::sclass && type != feature_type::mclass)
                           : t == ft::mclass2 ? type == feature_type::mclass
                                              : type == feature_type::sclass;
         if (!ok)
@@ -402,11 +406,67 @@ gradients_t make_gradients(const int n, const int O, const int full2, uint64_t i
 // the oracle: brute force over the documented hypothesis classes on the plain table
 constexpr ld INF = std::numeric_limits<ld>::infinity();
 
+/// how a sample list (repetitions count) is partitioned by each feature: independent of the gradients
+struct plan_t
+{
+    struct split_t
+    {
+        double           t = 0; // mid-point between two distinct consecutive given values
+        std::vector<int> lo, hi;
+    };
+    struct feature_t
+    {
+        std::vector<int>              given, missing;
+        std::vector<split_t>          splits; // scalar features
+        std::vector<std::vector<int>> labels; // categorical features: one list per observed label (combination)
+    };
+    std::vector<feature_t> feats;
+
+    plan_t(const problem_t& p, const std::vector<int>& S)
+        : feats(static_cast<size_t>(p.F()))
+    {
+        for (int f = 0; f < p.F(); ++f)
+        {
+            auto&                           pf = feats[static_cast<size_t>(f)];
+            std::set<double>                values;
+            std::map<int, std::vector<int>> groups;
+            for (const int i : S)
+            {
+                const auto& c = p.at(f, i);
+                (c.given ? pf.given : pf.missing).push_back(i);
+                if (c.given && p.scalar(f))
+                {
+                    values.insert(c.x);
+                }
+                else if (c.given)
+                {
+                    groups[c.key].push_back(i);
+                }
+            }
+            const std::vector<double> v(values.begin(), values.end());
+            for (size_t k = 0; k + 1 < v.size(); ++k)
+            {
+                split_t sp;
+                sp.t = 0.5 * (v[k] + v[k + 1]);
+                for (const int i : pf.given)
+                {
+                    (p.at(f, i).x < sp.t ? sp.lo : sp.hi).push_back(i);
+                }
+                pf.splits.push_back(std::move(sp));
+            }
+            for (auto& [key, L] : groups)
+            {
+                pf.labels.push_back(std::move(L));
+            }
+        }
+    }
+};
+
 struct oracle_t
 {
-    const problem_t&        p;
-    const std::vector<int>& S; // sample list (repetitions count)
-    const gradients_t&      G;
+    const problem_t&   p;
+    const plan_t&      plan;
+    const gradients_t& G;
 
     ld rss_zero(const std::vector<int>& L) const
     {
@@ -500,104 +560,43 @@ struct oracle_t
         return s;
     }
 
-    std::vector<double> distinct_values(const int f) const
-    {
-        std::set<double> v;
-        for (const int i : S)
-        {
-            if (p.at(f, i).given)
-            {
-                v.insert(p.at(f, i).x);
-            }
-        }
-        return {v.begin(), v.end()};
-    }
-    std::vector<int> missing(const int f) const
-    {
-        std::vector<int> L;
-        for (const int i : S)
-        {
-            if (!p.at(f, i).given)
-            {
-                L.push_back(i);
-            }
-        }
-        return L;
-    }
-
     /// minimum RSS of the learner class on feature f (INF: the class is empty on this feature)
     ld stump(const int f) const
     {
-        ld         best = INF;
-        const auto v    = distinct_values(f);
-        for (size_t k = 0; k + 1 < v.size(); ++k)
+        ld          best = INF;
+        const auto& pf   = plan.feats[static_cast<size_t>(f)];
+        for (const auto& sp : pf.splits)
         {
-            const double     t = 0.5 * (v[k] + v[k + 1]);
-            std::vector<int> lo, hi;
-            for (const int i : S)
-            {
-                if (p.at(f, i).given)
-                {
-                    (p.at(f, i).x < t ? lo : hi).push_back(i);
-                }
-            }
-            best = std::min(best, rss_mean(lo) + rss_mean(hi) + rss_zero(missing(f)));
+            best = std::min(best, rss_mean(sp.lo) + rss_mean(sp.hi) + rss_zero(pf.missing));
         }
         return best;
     }
     ld hinge(const int f) const
     {
-        ld         best = INF;
-        const auto v    = distinct_values(f);
-        for (size_t k = 0; k + 1 < v.size(); ++k)
+        ld          best = INF;
+        const auto& pf   = plan.feats[static_cast<size_t>(f)];
+        for (const auto& sp : pf.splits)
         {
-            const double     t = 0.5 * (v[k] + v[k + 1]);
-            std::vector<int> lo, hi;
-            for (const int i : S)
-            {
-                if (p.at(f, i).given)
-                {
-                    (p.at(f, i).x < t ? lo : hi).push_back(i);
-                }
-            }
-            const ld miss = rss_zero(missing(f));
-            best          = std::min(best, rss_hinge(lo, f, t) + rss_zero(hi) + miss); // beta * (t - x)+
-            best          = std::min(best, rss_zero(lo) + rss_hinge(hi, f, t) + miss); // beta * (x - t)+
+            const ld miss = rss_zero(pf.missing);
+            best          = std::min(best, rss_hinge(sp.lo, f, sp.t) + rss_zero(sp.hi) + miss); // beta * (t - x)+
+            best          = std::min(best, rss_zero(sp.lo) + rss_hinge(sp.hi, f, sp.t) + miss); // beta * (x - t)+
         }
         return best;
     }
     ld affine(const int f) const
     {
-        if (distinct_values(f).size() < 2)
+        const auto& pf = plan.feats[static_cast<size_t>(f)];
+        if (pf.splits.empty())
         {
-            return INF; // singular normal equations: no unique least-squares line
+            return INF; // fewer than two distinct given values: singular normal equations, no unique least-squares line
         }
-        std::vector<int> L;
-        for (const int i : S)
-        {
-            if (p.at(f, i).given)
-            {
-                L.push_back(i);
-            }
-        }
-        return rss_affine(L, f) + rss_zero(missing(f));
-    }
-    std::map<int, std::vector<int>> by_label(const int f) const
-    {
-        std::map<int, std::vector<int>> m;
-        for (const int i : S)
-        {
-            if (p.at(f, i).given)
-            {
-                m[p.at(f, i).key].push_back(i);
-            }
-        }
-        return m;
+        return rss_affine(pf.given, f) + rss_zero(pf.missing);
     }
     ld dense(const int f) const
     {
-        ld s = rss_zero(missing(f));
-        for (const auto& [key, L] : by_label(f))
+        const auto& pf = plan.feats[static_cast<size_t>(f)];
+        ld          s  = rss_zero(pf.missing);
+        for (const auto& L : pf.labels)
         {
             s += rss_mean(L);
         }
@@ -605,16 +604,16 @@ struct oracle_t
     }
     ld dstep(const int f) const
     {
-        ld         best   = INF;
-        const auto groups = by_label(f);
-        for (const auto& [key, L] : groups)
+        const auto& pf   = plan.feats[static_cast<size_t>(f)];
+        ld          best = INF;
+        for (size_t k = 0; k < pf.labels.size(); ++k)
         {
-            ld s = rss_zero(missing(f)) + rss_mean(L);
-            for (const auto& [key2, L2] : groups)
+            ld s = rss_zero(pf.missing) + rss_mean(pf.labels[k]);
+            for (size_t k2 = 0; k2 < pf.labels.size(); ++k2)
             {
-                if (key2 != key)
+                if (k2 != k)
                 {
-                    s += rss_zero(L2);
+                    s += rss_zero(pf.labels[k2]);
                 }
             }
             best = std::min(best, s);
@@ -622,8 +621,9 @@ struct oracle_t
         return best;
     }
 
-    /// per-feature minima of the named class (INF where the feature is not usable)
-    std::vector<ld> per_feature(const std::string& learner) const
+    /// per-feature minima of the class of learner `kind` (index into specs(): 0 stump, 1 hinge, 2 affine, 3 dense
+    /// table, 4 dstep table); INF where the feature is not usable
+    std::vector<ld> per_feature(const int kind) const
     {
         std::vector<ld> v(static_cast<size_t>(p.F()), INF);
         for (int f = 0; f < p.F(); ++f)
@@ -631,11 +631,11 @@ struct oracle_t
             auto& x = v[static_cast<size_t>(f)];
             if (p.scalar(f))
             {
-                x = learner == "stump" ? stump(f) : learner == "hinge" ? hinge(f) : learner == "affine" ? affine(f) : INF;
+                x = kind == 0 ? stump(f) : kind == 1 ? hinge(f) : kind == 2 ? affine(f) : INF;
             }
             else
             {
-                x = learner == "dense-table" ? dense(f) : learner == "dstep-table" ? dstep(f) : INF;
+                x = kind == 3 ? dense(f) : kind == 4 ? dstep(f) : INF;
             }
         }
         return v;
@@ -677,14 +677,15 @@ struct spec_t
     std::string name;   // our name
     bool        scalar; // needs scalar features (else categorical)
     int         depth;  // dtree max_depth (0: not a tree)
+    int         kind;   // oracle class (see oracle_t::per_feature), -1: none
 };
 
 const std::vector<spec_t>& specs()
 {
     static const std::vector<spec_t> s = {
-        {"stump", true, 0},          {"hinge", true, 0},       {"affine", true, 0},
-        {"dense-table", false, 0},   {"dstep-table", false, 0}, {"kbest-table", false, 0},
-        {"ksplit-table", false, 0},  {"dtree1", true, 1},      {"dtree2", true, 2},
+        {"stump", true, 0, 0},         {"hinge", true, 0, 1},        {"affine", true, 0, 2},
+        {"dense-table", false, 0, 3},  {"dstep-table", false, 0, 4}, {"kbest-table", false, 0, -1},
+        {"ksplit-table", false, 0, -1}, {"dtree1", true, 1, 0},       {"dtree2", true, 2, -1},
     };
     return s;
 }
@@ -843,12 +844,26 @@ bool has_empty_categorical(const problem_t& p, const std::vector<int>& S)
     return false;
 }
 
+/// the bound on the number of samples per (number of features, outputs); schema "x4" may go further with one output
 struct tiers_t
 {
-    int nmax_single = 4; // schemas with one feature
-    int nmax_pair   = 3; // schemas with two features
-    int full2       = 3; // two outputs: complete gradient enumeration up to this n, thinned above
-    int omax_nmax   = 99; // two outputs only up to this n
+    int n1[2] = {4, 4}; // one feature: [one output, two outputs]
+    int n2[2] = {3, 3}; // two features
+    int nx    = 0;      // schema "x4", one output
+    int full2 = 3;      // two outputs: complete gradient enumeration up to this n, thinned above
+
+    int nmax(const schema_t& s, const int O) const
+    {
+        const int base = (s.feats.size() == 1 ? n1 : n2)[O - 1];
+        return std::min(s.ncap, (O == 1 && s.name == "x4") ? std::max(base, nx) : base);
+    }
+    std::string json() const
+    {
+        return "{\"one feature\":{\"one output\":\"2.." + std::to_string(n1[0]) + "\",\"two outputs\":\"2.." +
+               std::to_string(n1[1]) + "\"},\"two features\":{\"one output\":\"2.." + std::to_string(n2[0]) +
+               "\",\"two outputs\":\"2.." + std::to_string(n2[1]) + "\"},\"schema x, one output\":\"2.." +
+               std::to_string(std::max(nx, n1[0])) + "\"}";
+    }
 };
 
 // =============================================================================================
@@ -856,15 +871,16 @@ struct tiers_t
 void stage_optimal(report_t& r, const args_t& args)
 {
     tiers_t T;
-    T.nmax_single = static_cast<int>(args.geti("nmax-single", args.thorough() ? 6 : 4));
-    T.nmax_pair   = static_cast<int>(args.geti("nmax-pair", args.thorough() ? 4 : 3));
-    T.full2       = static_cast<int>(args.geti("full2", 3));
+    T.n1[0] = static_cast<int>(args.geti("n1-o1", args.thorough() ? 6 : 4));
+    T.n1[1] = static_cast<int>(args.geti("n1-o2", args.thorough() ? 5 : 4));
+    T.n2[0] = static_cast<int>(args.geti("n2-o1", args.thorough() ? 4 : 3));
+    T.n2[1] = static_cast<int>(args.geti("n2-o2", 3));
+    T.full2 = static_cast<int>(args.geti("full2", args.thorough() ? 3 : 2));
 
-    r.axis("schema", "{\"size\":8,\"alphabet\":[\"x\",\"c2\",\"c3\",\"m2\",\"x+c2\",\"x+x\",\"c2+m2\",\"c2+c2\"],\"legend\":"
+    r.axis("schema", "{\"size\":9,\"alphabet\":[\"x\",\"c2\",\"c3\",\"m2\",\"x+c2\",\"x+x\",\"c2+m2\",\"c2+c2\",\"x4\"],\"legend\":"
                      "\"x scalar over {0,1,2,missing}; c2/c3 single-label over {0,1[,2],missing}; m2 multi-label over "
-                     "{00,10,01,11,missing}\"}");
-    r.axis("n", "{\"one feature\":\"2.." + std::to_string(T.nmax_single) + "\",\"two features\":\"2.." +
-                    std::to_string(T.nmax_pair) + "\"}");
+                     "{00,10,01,11,missing}; x4 scalar over {0,1,2,3,missing}\"}");
+    r.axis("n", T.json());
     r.axis("outputs", "{\"size\":2,\"alphabet\":[1,2]}");
     r.axis("gradient", "{\"alphabet\":[0,-1,2],\"rule\":\"all 3^n per output; two outputs: all 9^n for n<=" +
                            std::to_string(T.full2) +
@@ -880,11 +896,14 @@ void stage_optimal(report_t& r, const args_t& args)
     uint64_t datasets = 0;
     for (const auto& s : schemas())
     {
-        const int nmax = s.feats.size() == 1 ? T.nmax_single : T.nmax_pair;
-        for (int n = 2; n <= nmax; ++n)
+        for (int n = 2; n <= T.nmax(s, 1); ++n)
         {
             for (int O = 1; O <= 2; ++O)
             {
+                if (n > T.nmax(s, O))
+                {
+                    continue;
+                }
                 const auto lat = make_lattice(s, n);
                 const auto tag = s.name + "/n" + std::to_string(n) + "/o" + std::to_string(O);
                 datasets += lat.size();
@@ -949,6 +968,11 @@ void stage_optimal(report_t& r, const args_t& args)
                                 }
                             }
                         }
+                        std::vector<plan_t> plans;
+                        for (const auto& L : lists)
+                        {
+                            plans.emplace_back(p, L);
+                        }
                         for (uint64_t gi = 0; gi < ngrad; ++gi)
                         {
                             const auto G  = make_gradients(n, O, T.full2, gi);
@@ -956,7 +980,7 @@ void stage_optimal(report_t& r, const args_t& args)
                             for (size_t li = 0; li < lists.size(); ++li)
                             {
                                 const auto&    S = lists[li];
-                                const oracle_t oracle{p, S, G};
+                                const oracle_t oracle{p, plans[li], G};
                                 const ld       zero = oracle.rss_zero(S);
                                 for (auto& [spec, w] : learners)
                                 {
@@ -966,7 +990,7 @@ void stage_optimal(report_t& r, const args_t& args)
                                         r.outcome("dstep-table:crash(feature without given values)");
                                         continue;
                                     }
-                                    const auto  pf   = oracle.per_feature(spec->name);
+                                    const auto  pf   = oracle.per_feature(spec->kind);
                                     const ld    best = *std::min_element(pf.begin(), pf.end());
                                     const auto  what = [&]() { return case_json(p, G, S, spec->name, "rss"); };
                                     double      score = 0;
@@ -1050,7 +1074,7 @@ void stage_optimal(report_t& r, const args_t& args)
 struct fitted_t
 {
     const spec_t* spec = nullptr;
-    rwlearner_t   w;
+    wlearner_t*   w     = nullptr; // owned by the per-case pool (a fit overwrites every fitted parameter)
     double        score = 0;
     bool          ok    = false;
 };
@@ -1058,22 +1082,31 @@ struct fitted_t
 void stage_consistency(report_t& r, const args_t& args)
 {
     tiers_t T;
-    T.nmax_single = static_cast<int>(args.geti("nmax-single", args.thorough() ? 4 : 3));
-    T.nmax_pair   = static_cast<int>(args.geti("nmax-pair", args.thorough() ? 3 : 2));
-    T.full2       = static_cast<int>(args.geti("full2", 2));
+    T.n1[0] = static_cast<int>(args.geti("n1-o1", args.thorough() ? 4 : 3));
+    T.n1[1] = static_cast<int>(args.geti("n1-o2", args.thorough() ? 4 : 3));
+    T.n2[0] = static_cast<int>(args.geti("n2-o1", 3));
+    T.n2[1] = static_cast<int>(args.geti("n2-o2", args.thorough() ? 3 : 2));
+    T.nx    = static_cast<int>(args.geti("nx-o1", 4)); // trees of depth 2 need >= 4 samples with 4 distinct values
+    T.full2 = static_cast<int>(args.geti("full2", 0));
+    // two features, n >= this: only the criteria rss and aicc (the default)
+    const int crit2_n = static_cast<int>(args.geti("crit2-n", args.thorough() ? 99 : 3));
     const std::vector<size_t> threads = {2, 16};
+    const int threads_nmax = static_cast<int>(args.geti("threads-nmax", args.thorough() ? 3 : 2));
 
-    r.axis("schema", "{\"size\":8,\"alphabet\":[\"x\",\"c2\",\"c3\",\"m2\",\"x+c2\",\"x+x\",\"c2+m2\",\"c2+c2\"]}");
-    r.axis("n", "{\"one feature\":\"2.." + std::to_string(T.nmax_single) + "\",\"two features\":\"2.." +
-                    std::to_string(T.nmax_pair) + "\"}");
+    r.axis("schema", "{\"size\":9,\"alphabet\":[\"x\",\"c2\",\"c3\",\"m2\",\"x+c2\",\"x+x\",\"c2+m2\",\"c2+c2\",\"x4\"],\"legend\":"
+                     "\"as in stage optimal; x4 = scalar over {0,1,2,3,missing} so that trees of depth 2 can fit\"}");
+    r.axis("n", T.json());
     r.axis("outputs", "{\"size\":2,\"alphabet\":[1,2]}");
-    r.axis("gradient", "{\"alphabet\":[0,-1,2],\"rule\":\"all 3^n per output; two outputs: all 9^n for n<=" +
-                           std::to_string(T.full2) + ", above thinned as in stage optimal\"}");
+    r.axis("gradient", "{\"alphabet\":[0,-1,2],\"rule\":\"one output: all 3^n; two outputs: output 0 over all 3^n x output 1 in "
+                       "{rotated alphabet, reversed order, fixed alternating pattern}\"}");
     r.axis("fit samples", "{\"size\":2,\"alphabet\":[\"all\",\"all-but-last\"]}");
-    r.axis("criterion", "{\"size\":4,\"alphabet\":[\"rss\",\"aic\",\"aicc\",\"bic\"]}");
+    r.axis("criterion", "{\"size\":4,\"alphabet\":[\"rss\",\"aic\",\"aicc\",\"bic\"]" +
+                            (crit2_n < 99 ? ",\"note\":\"two features and n>=" + std::to_string(crit2_n) + ": rss and aicc only\"" : std::string()) + "}");
     r.axis("learner", "{\"size\":9,\"alphabet\":[\"stump\",\"hinge\",\"affine\",\"dense-table\",\"dstep-table\","
                       "\"kbest-table\",\"ksplit-table\",\"dtree(max_depth=1)\",\"dtree(max_depth=2)\"]}");
-    r.axis("threads", "{\"size\":3,\"alphabet\":[1,2,16],\"note\":\"2 and 16 on the two-feature schemas\"}");
+    r.axis("threads", "{\"size\":3,\"alphabet\":[1,2,16],\"note\":\"2 and 16 on the schemas with two features of the same "
+                      "kind (x+x, c2+c2; one feature of a kind is looped inline whatever the pool size), one output, fit list 'all', n<=" +
+                          std::to_string(threads_nmax) + "\"}");
     r.assume("threads: the selected feature is compared only for criterion rss, the five learners with an oracle (and "
              "the depth-1 tree) and a unique best feature; with tied features any of them is a correct answer; "
              "trees of depth 2 are excluded from the thread comparison (a tie at the root legitimately changes the "
@@ -1083,11 +1116,14 @@ void stage_consistency(report_t& r, const args_t& args)
 
     for (const auto& s : schemas())
     {
-        const int nmax = s.feats.size() == 1 ? T.nmax_single : T.nmax_pair;
-        for (int n = 2; n <= nmax; ++n)
+        for (int n = 2; n <= T.nmax(s, 1); ++n)
         {
             for (int O = 1; O <= 2; ++O)
             {
+                if (n > T.nmax(s, O))
+                {
+                    continue;
+                }
                 const auto lat   = make_lattice(s, n);
                 const auto tag   = s.name + "/n" + std::to_string(n) + "/o" + std::to_string(O);
                 const auto ngrad = gradient_count(n, O, T.full2);
@@ -1117,8 +1153,9 @@ void stage_consistency(report_t& r, const args_t& args)
                             std::fprintf(stderr, "harness set-up: dataset differs from the table (%s)\n", one.c_str());
                             std::exit(2);
                         }
+                        std::map<std::string, std::vector<rwlearner_t>> pool; // learners: A, B, one per thread count
                         std::vector<built_t> bT;
-                        if (p.F() > 1)
+                        if (O == 1 && n <= threads_nmax && p.F() > 1 && p.schema->feats[0] == p.schema->feats[1])
                         {
                             for (const auto t : threads)
                             {
@@ -1156,6 +1193,10 @@ void stage_consistency(report_t& r, const args_t& args)
                             const auto GT2 = G2.tensor();
                             for (const auto& crit : criteria())
                             {
+                                if (p.F() == 2 && n >= crit2_n && crit != "rss" && crit != "aicc")
+                                {
+                                    continue;
+                                }
                                 for (size_t li = 0; li < fits.size(); ++li)
                                 {
                                     const auto& S   = fits[li];
@@ -1183,8 +1224,16 @@ void stage_consistency(report_t& r, const args_t& args)
 
                                         fitted_t A, B;
                                         A.spec = B.spec = &spec;
-                                        A.w             = make_learner(spec, crit);
-                                        B.w             = make_learner(spec, crit);
+                                        auto& mine      = pool[crit + "/" + spec.name];
+                                        if (mine.empty())
+                                        {
+                                            for (int k = 0; k < 4; ++k)
+                                            {
+                                                mine.push_back(make_learner(spec, crit));
+                                            }
+                                        }
+                                        A.w = mine[0].get();
+                                        B.w = mine[1].get();
                                         try
                                         {
                                             A.score = A.w->fit(ds, idx, GT);
@@ -1199,11 +1248,11 @@ void stage_consistency(report_t& r, const args_t& args)
                                         B.ok = B.score != wlearner_t::no_fit_score();
 
                                         // ---- threads: same score (and the same feature when it is the unique optimum)
-                                        if (!bT.empty() && spec.depth != 2)
+                                        if (!bT.empty() && li == 0 && spec.depth != 2)
                                         {
                                             for (size_t it = 0; it < bT.size(); ++it)
                                             {
-                                                auto         wt = make_learner(spec, crit);
+                                                auto*        wt = mine[2 + it].get();
                                                 const double st = wt->fit(*bT[it].dataset, idx, GT);
                                                 const bool   same =
                                                     (st == A.score) || (std::isfinite(st) && std::isfinite(A.score) &&
@@ -1215,11 +1264,11 @@ void stage_consistency(report_t& r, const args_t& args)
                                                               {"score_1_thread", jnum(A.score)},
                                                               {"score", jnum(st)}}));
                                                 }
-                                                else if (A.ok && crit == "rss" && spec.name != "kbest-table" &&
-                                                         spec.name != "ksplit-table")
+                                                else if (A.ok && crit == "rss" && spec.kind >= 0)
                                                 {
-                                                    const oracle_t oracle{p, S, G};
-                                                    auto pf = oracle.per_feature(spec.depth == 1 ? std::string("stump") : spec.name);
+                                                    const plan_t   plan(p, S);
+                                                    const oracle_t oracle{p, plan, G};
+                                                    const auto     pf = oracle.per_feature(spec.kind);
                                                     std::vector<ld> fl;
                                                     for (const auto v : pf)
                                                     {
@@ -1641,7 +1690,8 @@ int self_test()
     G.O     = 1;
     G.digit = {1, 1, 2, 2};
     const std::vector<int> S = {0, 1, 2, 3};
-    const oracle_t         o{p, S, G};
+    const plan_t           plan(p, S);
+    const oracle_t         o{p, plan, G};
     // stump: split at 1.5 -> lo mean 1 (rss 0), hi -2 (rss 0), missing 4  => 4; split at 0.5 -> 0 + 4.5 + 4
     // affine: x=(0,1,2), r=(1,1,-2): w=-1.5, b=1.5 -> residuals (-.5, 1, -.5) => 1.5 + 4 = 5.5
     // hinge right at 1.5: z=.5, beta=-4 -> rss lo 2, hi 0, missing 4 => 6 ; left at 1.5: z=(-1.5,-.5): beta = -2/2.5=-.8 ...
@@ -1652,7 +1702,8 @@ int self_test()
         return 2;
     }
     const auto pc = make_problem(schemas()[1], 4, 1, {0, 1, 1, 2});
-    const oracle_t oc{pc, S, G};
+    const plan_t   planc(pc, S);
+    const oracle_t oc{pc, planc, G};
     // c2 = (0, 1, 1, missing), r = (1, 1, -2, -2): dense = 0 + 4.5 + 4; dstep = min(0 + 1 + 4 + 4, 4.5 + 1 + 4) = 9 ... label 0 alone: 0 + (1+4) + 4 = 9
     if (fabsl(oc.dense(0) - 8.5L) > 1e-15L || fabsl(oc.dstep(0) - 9) > 1e-15L)
     {
